@@ -1,8 +1,8 @@
 SPECIFICATION Spec
 CONSTANTS
-  Mode = "single"
+  Mode = "all"
   Big = FALSE
-  PairScopes = {}
+  PairScopes = {"trace", "span"}
   Faithful = TRUE
 INVARIANTS TypeOK FirstMatch Decision AbsentNeverMatches SpanImpliesTrace DevOnlyOnAbsent
 ACTION_CONSTRAINT Dump
